@@ -621,6 +621,15 @@ func (m *Manager) NewScopedKeyManager(ns walletdb.ReadWriteBucket,
 		if err != nil {
 			return nil, err
 		}
+
+		// The default account now exists, so record it as the last
+		// account just like createManagerNS does for the default
+		// scopes. Otherwise the first NewAccount in this scope would be
+		// handed account number 0 again and overwrite it.
+		err = putLastAccount(ns, &scope, DefaultAccountNum)
+		if err != nil {
+			return nil, err
+		}
 	}
 
 	// Finally, we'll register this new scoped manager with the root
